@@ -82,6 +82,9 @@ pub fn dispatch(op: &str, _ty: &str, args: &[Arg]) -> Option<String> {
             ("rjust", [w, f]) => res_sarr(&a.rjust(&ua(w)?, oca(f)?)),
             ("split", [s, l]) => res_list(&ArrayStringManipulate::split(&a, osa(s)?, oua(l)?)),
             ("rsplit", [s, l]) => res_list(&a.rsplit(osa(s)?, oua(l)?)),
+            ("translate", [Arg::L(tbl)]) => res_sarr(&a.translate(tbl.chunks(2).filter(|p| p.len() == 2)
+                .map(|p| (char::from(p[0] as u8), char::from(p[1] as u8))).collect())),
+            ("zfill", [Arg::Z(w)]) => res_sarr(&a.zfill(*w as usize)),
             ("replace", [o, n, c]) => res_sarr(&a.replace(&sa(o)?, &sa(n)?, match c { Arg::N => None, Arg::Z(z) => Some(*z as usize), _ => return None })),
             _ => return None,
         })
